@@ -101,9 +101,9 @@ Proof.
   intros HR. cbn [new_region r_work r_peers]. apply (last_idx_bound (d_leader R) (d_peers R) 0 0). cbn.
   destruct (d_peers R) eqn:E; [exfalso; apply (peers_T_nonempty R HR); exact E|cbn; lia].
 Qed.
-Lemma of_truth_on_store R st : of_truth (region_on_store R st) R /\ fresh (region_on_store R st).
+Lemma of_truth_on_store bk R st : of_truth (region_on_store bk R st) R /\ fresh (region_on_store bk R st).
 Proof. unfold region_on_store. destruct (store_idx st (d_peers R) 0); repeat split. Qed.
-Lemma work_on_store R st : In R truth -> (r_work (region_on_store R st) < length (r_peers (region_on_store R st)))%nat.
+Lemma work_on_store bk R st : In R truth -> (r_work (region_on_store bk R st) < length (r_peers (region_on_store bk R st)))%nat.
 Proof.
   intros HR. unfold region_on_store. destruct (store_idx st (d_peers R) 0) as [i|] eqn:E.
   - cbn. apply store_idx_bound in E. lia.
@@ -121,7 +121,7 @@ Qed.
 
 (* every state that is not a valid unflagged hit loads the current region and caches it *)
 Lemma find_load c : cinv c -> load_state c ->
-  exists c1 r1, find_region_by_key pd budget fuel 0 c k false = (Ok (new_region T), c1, 1%nat) /\ cinv c1 /\
+  exists c1 r1 r', find_region_by_key pd budget fuel 0 c k false = (Ok r', c1, 1%nat) /\ r_verid r' = d_verid T /\ cinv c1 /\
     search (c_sorted c1) k false = Some r1 /\ In r1 (c_sorted c1) /\ r_verid r1 = d_verid T /\ r_expired r1 = false /\ flagged r1 = false /\ epoch_ok c1 r1.
 Proof.
   intros Hc Hl.
@@ -136,17 +136,19 @@ Proof.
     destruct (inherit_same r0 del2) as [I1 [_ [_ [I4 [I5 [I6 [I7 [I8 [I9 _]]]]]]]]].
     split; [unfold r_verid, d_verid; rewrite I1, I4, I5; reflexivity|]. split; [rewrite I7; reflexivity|]. split; [unfold flagged; rewrite I8, I9; reflexivity|].
     apply epoch_ok_inherit; [exact Hse|]. destruct (ci_ok _ c1 Hc1 _ Hin) as [_ [_ [Hw _]]]. rewrite I6 in Hw. exact Hw. }
+  assert (Hav : forall c0, r_verid (as_stored c0 (new_region T)) = d_verid T).
+  { intros c0. destruct (as_stored_range c0 (new_region T)) as [_ [_ [A [B C]]]]. unfold r_verid, d_verid. rewrite A, B, C. reflexivity. }
   unfold find_region_by_key. unfold load_state in Hl.
   destruct (search (c_sorted c) k false) as [x|] eqn:Es.
   - destruct (r_expired x) eqn:Ee.
-    + rewrite (load_T 0 Hbud). destruct (Hins c Hc) as [c1 [r1 [Hi H]]]. rewrite Hi. exists c1, r1. split; [reflexivity|exact H].
+    + rewrite (load_T 0 Hbud). destruct (Hins c Hc) as [c1 [r1 [Hi H]]]. rewrite Hi. cbn [snd]. eexists c1, r1, _. split; [reflexivity|]. split; [apply Hav|exact H].
     + destruct Hl as [Hl|Hl]; [discriminate|]. rewrite Hl. rewrite (load_T 0 Hbud).
       assert (Hx : In x (c_sorted c)) by (eapply search_in; exact Es).
       destruct (upd_entry_inv truth c x clear_access_flags Hc Hx shape_clear) as [Hc0 _].
       { destruct (ci_ok _ c Hc x Hx) as [A [B [C D]]]. repeat split; assumption. }
       { apply (ci_len _ c Hc x Hx). }
-      destruct (Hins _ Hc0) as [c1 [r1 [Hi H]]]. rewrite Hi. exists c1, r1. split; [reflexivity|exact H].
-  - rewrite (load_T 0 Hbud). destruct (Hins c Hc) as [c1 [r1 [Hi H]]]. rewrite Hi. exists c1, r1. split; [reflexivity|exact H].
+      destruct (Hins _ Hc0) as [c1 [r1 [Hi H]]]. rewrite Hi. cbn [snd]. eexists c1, r1, _. split; [reflexivity|]. split; [apply Hav|exact H].
+  - rewrite (load_T 0 Hbud). destruct (Hins c Hc) as [c1 [r1 [Hi H]]]. rewrite Hi. cbn [snd]. eexists c1, r1, _. split; [reflexivity|]. split; [apply Hav|exact H].
 Qed.
 Lemma find_hit c x : search (c_sorted c) k false = Some x -> r_expired x = false -> flagged x = false ->
   find_region_by_key pd budget fuel 0 c k false = (Ok x, c, 0%nat).
@@ -256,9 +258,9 @@ Qed.
 
 Lemma load_converges c : cinv c -> load_state c -> rounds 2 c k = true.
 Proof.
-  intros Hc Hl. destruct (find_load c Hc Hl) as [c1 [r1 [Hf [Hc1 [Hs [Hin [Hv [He [Hfl Hep]]]]]]]]].
+  intros Hc Hl. destruct (find_load c Hc Hl) as [c1 [r1 [r' [Hf [Hv' [Hc1 [Hs [Hin [Hv [He [Hfl Hep]]]]]]]]]]].
   assert (Hst : st_T c1 r1) by (repeat split; assumption).
-  assert (Hvn : r_verid (new_region T) = r_verid r1) by (rewrite Hv; reflexivity).
+  assert (Hvn : r_verid r' = r_verid r1) by (rewrite Hv, Hv'; reflexivity).
   destruct (from_entry c1 r1 Hc1 Hin Hv He Hfl Hep) as [Hrpc [Hlead|Hrep]].
   - eapply rounds_true. unfold Converge.round. rewrite Hf, Hvn, Hrpc.
     destruct (st_T_entry c1 r1 Hc1 Hst) as [_ [Hp Hw]].
@@ -342,6 +344,7 @@ Lemma epoch_to c x R st : cinv c -> stale c x -> In R truth -> d_id R = r_id x -
 Proof.
   intros Hc Hst HR Hid. destruct (stale_entry c x Hc Hst) as [Hin [Hk Hr0]]. destruct (Hcur R HR) as [HRc Hsub].
   unfold on_epoch_not_match. destruct (cur_of R) as [|d0 rest] eqn:Ecur; [destruct HRc|]. rewrite <- Ecur in *.
+  set (bk0 := match get_by_verid c (r_verid x) with Some x0 => r_bk x0 | None => None end).
   assert (Hah : epoch_ahead (r_verid x) (cur_of R) = false).
   { unfold epoch_ahead, r_verid. match goal with |- ?e = false => destruct e eqn:E end; [|reflexivity]. exfalso.
     apply existsb_exists in E. destruct E as [d [Hd Hp]]. apply andb_true_iff in Hp. destruct Hp as [Hp1 Hp2]. apply N.eqb_eq in Hp1.
@@ -352,23 +355,23 @@ Proof.
   { match goal with |- ?e = false => destruct e eqn:E end; [|reflexivity]. exfalso. apply existsb_exists in E. destruct E as [d [Hd Hp]].
     apply is_nil_true in Hp. apply (peers_T_nonempty d (Hsub d Hd)). exact Hp. }
   rewrite Hpe.
-  assert (Hkeep : existsb (fun r => verid_eqb (r_verid r) (r_verid x)) (map (fun d => region_on_store d st) (cur_of R)) = false).
+  assert (Hkeep : existsb (fun r => verid_eqb (r_verid r) (r_verid x)) (map (fun d => region_on_store bk0 d st) (cur_of R)) = false).
   { match goal with |- ?e = false => destruct e eqn:E end; [|reflexivity]. exfalso. apply existsb_exists in E. destruct E as [r [Hr Hp]].
     apply in_map_iff in Hr. destruct Hr as [d [<- Hd]]. apply verid_eqb_eq in Hp.
-    destruct (of_truth_on_store d st) as [[O1 [_ [_ [O4 [O5 _]]]]] _].
+    destruct (of_truth_on_store bk0 d st) as [[O1 [_ [_ [O4 [O5 _]]]]] _].
     apply (stale_not_current c x d Hc Hst (Hsub d Hd)). unfold r_verid, d_verid in *. congruence. }
   rewrite Hkeep.
   destruct (invalidate_to_load c x 3 Hc Hst ltac:(discriminate)) as [Hc1 Hl1].
-  destruct (insert_all_truth (map (fun d => region_on_store d st) (cur_of R)) _ Hc1) as [Hc3 [Hse3 Hsrch]].
+  destruct (insert_all_truth (map (fun d => region_on_store bk0 d st) (cur_of R)) _ Hc1) as [Hc3 [Hse3 Hsrch]].
   { intros r Hr. apply in_map_iff in Hr. destruct Hr as [d [<- Hd]]. exists d. split; [apply Hsub; exact Hd|].
-    destruct (of_truth_on_store d st) as [O F]. split; [exact O|]. split; [exact F|apply work_on_store; apply Hsub; exact Hd]. }
+    destruct (of_truth_on_store bk0 d st) as [O F]. split; [exact O|]. split; [exact F|apply work_on_store; apply Hsub; exact Hd]. }
   eexists. split; [reflexivity|]. split; [exact Hc3|].
-  set (c1 := invalidate c (r_verid x) 3) in *. set (c3 := insert_all c1 (map (fun d => region_on_store d st) (cur_of R))) in *.
+  set (c1 := invalidate c (r_verid x) 3) in *. set (c3 := insert_all c1 (map (fun d => region_on_store bk0 d st) (cur_of R))) in *.
   destruct (search (c_sorted c3) k false) as [y|] eqn:Ey.
   2:{ left. unfold load_state. rewrite Ey. exact I. }
   destruct (Hsrch y eq_refl) as [[r [deleted [Hr Hy]]]|Hold].
-  - right. exists y. apply in_map_iff in Hr. destruct Hr as [d [<- Hd]]. set (r0 := stamp (c_sepochs c1) (region_on_store d st)) in *.
-    destruct (of_truth_on_store d st) as [[O1 [O2 [O3 [O4 [O5 O6]]]]] [F1 [F2 [F3 F4]]]].
+  - right. exists y. apply in_map_iff in Hr. destruct Hr as [d [<- Hd]]. set (r0 := stamp (c_sepochs c1) (region_on_store bk0 d st)) in *.
+    destruct (of_truth_on_store bk0 d st) as [[O1 [O2 [O3 [O4 [O5 O6]]]]] [F1 [F2 [F3 F4]]]].
     destruct (inherit_same r0 deleted) as [I1 [I2 [I3 [I4 [I5 [I6 [I7 [I8 [I9 _]]]]]]]]]. rewrite <- Hy in I1, I2, I3, I4, I5, I6, I7, I8, I9.
     assert (RR : r_id r0 = d_id d /\ r_start r0 = d_start d /\ r_end r0 = d_end d /\ r_ver r0 = d_ver d /\ r_conf r0 = d_conf d /\
                  r_expired r0 = false /\ r_reload r0 = false /\ r_ready r0 = false)
@@ -488,8 +491,8 @@ Proof.
     - rewrite Hrep in Hok. contradiction. }
   assert (Hload : load_state c -> exists e, In e (c_sorted c') /\ r_verid e = d_verid T /\ r_contains e k = true /\
             store_reply (r_verid e) (d_leader T) = RepOk /\ nth (r_work e) (r_peers e) (0, 0) = d_leader T).
-  { intros Hl. destruct (find_load c Hc Hl) as [c1 [r1 [Hf [Hc1 [Hs [Hin [Hv [He [Hfl Hep]]]]]]]]].
-    unfold Converge.round in Hr. rewrite Hf in Hr. replace (r_verid (new_region T)) with (r_verid r1) in Hr by (rewrite Hv; reflexivity).
+  { intros Hl. destruct (find_load c Hc Hl) as [c1 [r1 [r' [Hf [Hv' [Hc1 [Hs [Hin [Hv [He [Hfl Hep]]]]]]]]]]].
+    unfold Converge.round in Hr. rewrite Hf in Hr. replace (r_verid r') with (r_verid r1) in Hr by (rewrite Hv, Hv'; reflexivity).
     rewrite (rpc_ctx_in c1 r1 Hc1 Hin He Hfl Hep) in Hr. exists r1.
     destruct (store_reply (r_verid r1) (nth (r_work r1) (r_peers r1) (0, 0))) eqn:Erep; try discriminate. injection Hr as <-.
     apply (Hent c1); try assumption. rewrite Erep. exact I. }
